@@ -247,7 +247,116 @@ def unused_parameters(repo, rep, rule, prefixes, what):
                          f"'{p}' is accepted but has no influence on the result ({what}): a caller's non-default value is silently ignored",
                          anchor=f"unused-parameter:{fi.short}.{p}")
     rep.ok(rule, "package", f"{n} parameters in {', '.join(prefixes)}", "every parameter is read (or was already unused when the rules were written)")
+    # ... and a control parameter reaches its uses as the caller gave it
+    nre = 0
+    for fi in repo.all_funcs():
+        if not any(fi.module.name == p or fi.module.name.startswith(p + ".") or fi.qualname.startswith(p) for p in prefixes):
+            continue
+        if fi.name.startswith("__"):
+            continue
+        for st, p in _control_param_redefinitions(fi):
+            nre += 1
+            if (fi.name, p) in REDEFINED_AT_PIN:
+                rep.ok(rule, f"{fi.file}:{st.lineno} {fi.short}", unparse(st)[:90], f"accepted redefinition of '{p}': {REDEFINED_AT_PIN[(fi.name, p)]}", nontrivial=False)
+                continue
+            rep.fail(rule, fi.file, st.lineno, fi.qualname, unparse(st)[:110],
+                     f"the control parameter '{p}' of {fi.short} is replaced by another value before it is used ({what}): what the caller asked for "
+                     "(a cutoff, limit, tolerance, window, count, switch ...) is no longer what the code applies; only coercions of the value itself "
+                     "and the filling-in of an absent value are accepted", anchor=f"redefined-parameter:{fi.short}.{p}")
     return n
+
+
+_COERCERS = ("float", "int", "bool", "str", "list", "tuple", "set", "asarray", "array", "atleast_1d", "atleast_2d", "asanyarray", "Path", "to_coords",
+             "float64", "float32", "DataArray", "squeeze", "ravel", "sorted_unique", "abs")
+
+# redefinitions of control parameters present when the rules were written, confirmed by reading (function short name, parameter): reason
+REDEFINED_AT_PIN = {
+    ("to_octopus", "ntime"): "chunk size: defaulted / clamped to the number of records, then the per-chunk record count inside the dump loop",
+    ("to_swan", "ntime"): "chunk size: defaulted / clamped to the number of records",
+    ("from_ndbc", "directional"): "switched off when the directional variables are absent from the file",
+    ("read_swans", "int_freq"): "interpolation targets accumulated from the files when requested as True",
+    ("read_swans", "int_dir"): "default direction grid when requested as True",
+    ("read_ndbc_ascii", "dirs"): "1-D files get the single direction 0",
+    ("extract_direction", "dir"): "WW3 station header: radians going-to -> parsed value",
+    ("partition_and_reconstruct", "freq_name"): "one fit name broadcast to every partition",
+    ("partition_and_reconstruct", "dir_name"): "one fit name broadcast to every partition",
+    ("spectra", "freq_name"): "CLI: comma separated list",
+    ("spectra", "dir_name"): "CLI: comma separated list",
+    ("read_spotter", "filetype"): "deduced from the file suffix when not given, lower-cased",
+    ("interp_spec", "outdir"): "converted to radians for the 2-D griddata branch (after all comparisons)",
+    ("interp_spec", "indir"): "converted to radians for the 2-D griddata branch (after all comparisons)",
+}
+
+
+def _control_param_redefinitions(fi):
+    """(statement, parameter) for every redefinition of a control (scalar-like) parameter that is neither a coercion of itself, nor the
+    filling-in of a default, nor a step of a data pipeline on a data-like parameter."""
+    import ast
+    out = []
+    a = fi.node.args
+    params = [x.arg for x in a.posonlyargs + a.args + a.kwonlyargs if x.arg not in ("self", "cls")]
+    if not params:
+        return out
+    # data-like parameters: used through attribute access / subscripts (datasets, arrays, dicts); their reassignment is a pipeline step
+    datalike = set()
+    for n in ast.walk(fi.node):
+        if isinstance(n, (ast.Attribute, ast.Subscript)) and isinstance(n.value, ast.Name) and n.value.id in params and isinstance(n.ctx, ast.Load):
+            datalike.add(n.value.id)
+
+    def visit(stmts, conds):
+        for st in stmts:
+            if isinstance(st, ast.If):
+                visit(st.body, conds + [(st.test, True)])
+                visit(st.orelse, conds + [(st.test, False)])
+                continue
+            for fld in ("body", "orelse", "finalbody"):
+                if isinstance(st, (ast.For, ast.While, ast.With, ast.Try)) and isinstance(getattr(st, fld, None), list):
+                    visit(getattr(st, fld), conds)
+            if isinstance(st, ast.Try):
+                for h in st.handlers:
+                    visit(h.body, conds)
+            if not isinstance(st, (ast.Assign, ast.AugAssign)):
+                continue
+            tg = st.targets if isinstance(st, ast.Assign) else [st.target]
+            names = [x.id for t in tg for x in ([t] if isinstance(t, ast.Name) else (t.elts if isinstance(t, (ast.Tuple, ast.List)) else []))
+                     if isinstance(x, ast.Name)]
+            for p in names:
+                if p not in params or p in datalike:
+                    continue
+                v = st.value
+                if isinstance(st, ast.AugAssign):
+                    out.append((st, p))
+                    continue
+                # coercion of itself
+                if isinstance(v, ast.Call) and (call_name(v) or "").split(".")[-1] in _COERCERS and v.args and unparse(v.args[0]) == p:
+                    continue
+                if isinstance(v, (ast.List, ast.Tuple)) and len(v.elts) == 1 and unparse(v.elts[0]) == p:
+                    continue        # p = [p]
+                # default filling:  p = p or X ;  p = X if p is None else p ;  under  if p is None / if not p
+                if isinstance(v, ast.BoolOp) and isinstance(v.op, ast.Or) and unparse(v.values[0]) == p:
+                    continue
+                if isinstance(v, ast.IfExp) and p in unparse(v.test) and (unparse(v.body) == p or unparse(v.orelse) == p):
+                    continue
+
+                def is_absent_test(t, truth):
+                    if isinstance(t, ast.Compare) and len(t.ops) == 1 and unparse(t.left) == p and isinstance(t.comparators[0], ast.Constant) \
+                            and t.comparators[0].value is None:
+                        return (isinstance(t.ops[0], ast.Is) and truth) or (isinstance(t.ops[0], ast.IsNot) and not truth)
+                    if isinstance(t, ast.UnaryOp) and isinstance(t.op, ast.Not) and unparse(t.operand) == p:
+                        return truth
+                    if isinstance(t, ast.Name) and t.id == p:
+                        return not truth
+                    if isinstance(t, ast.BoolOp):
+                        return any(is_absent_test(x, truth) for x in t.values)
+                    return False
+                if any(is_absent_test(t, tr) for t, tr in conds):
+                    continue
+                # isinstance-normalisation:  if isinstance(p, str): p = [p]
+                if any(isinstance(x, ast.Call) and call_name(x) == "isinstance" and x.args and unparse(x.args[0]) == p for t, _ in conds for x in ast.walk(t)):
+                    continue
+                out.append((st, p))
+    visit(fi.node.body, [])
+    return out
 
 
 RATIO_STATS = ("tm01", "tm02", "dm", "dspr", "fdspr", "dpm", "swe", "sw", "goda", "momf", "momd")
